@@ -513,6 +513,12 @@ class _MP(StandIn):
     def cross(self, o):
         return self.x * o[1] - self.y * o[0]
 
+    def norm2(self):
+        return self.x * self.x + self.y * self.y
+
+    def __abs__(self):
+        return float(self.x * self.x + self.y * self.y) ** 0.5
+
     def __copy__(self):
         return _MP(self.x, self.y)
 
@@ -720,6 +726,10 @@ def r18_11(ctx):
                 v = 10 ** 6 if a is None else pat.const_value(a)         # the default of the Fraction API is 10**6
                 if v is None and isinstance(a, ast.Name):
                     v = mconsts.get(a.id)
+                if v is None and isinstance(a, ast.Name) and a.id not in fn.params:
+                    ds = [d for d in pat.local_defs(fn).get(a.id, []) if not isinstance(d, tuple)]
+                    if len(ds) == 1 and len(pat.local_defs(fn).get(a.id, [])) == 1:
+                        v = pat.const_value(ds[0])                       # a local name for the constant
                 if v is None and isinstance(a, ast.Name) and a.id in fn.params:
                     # the resolution is an argument: the coarsest one handed over by the callers within the closure
                     idx = fn.params.index(a.id)
